@@ -36,6 +36,25 @@ type Case struct {
 	Histories  []History `json:"histories"`
 	Registered []CSSRef  `json:"registered,omitempty"`
 	PreInit    bool      `json:"pre_init"` // contexts are created with templ.InitializeContext before rendering
+	// Nested: every Write that reaches the writer of context 0 (a slow client, a writer that
+	// renders something itself) first lets the next history of another context render. The
+	// contexts stay independent; only the moments at which they render interleave.
+	Nested bool `json:"nested,omitempty"`
+}
+
+type hookWriter struct {
+	buf  *bytes.Buffer
+	hook func()
+	busy bool
+}
+
+func (h *hookWriter) Write(p []byte) (int, error) {
+	if h.hook != nil && !h.busy {
+		h.busy = true
+		h.hook()
+		h.busy = false
+	}
+	return h.buf.Write(p)
 }
 
 type History struct {
@@ -350,6 +369,58 @@ func decide(c Case) error {
 		st.model.walk(h.Uses)
 		return renderInto(ctx, h.Uses, &st.buf)
 	}
+	if c.Nested && len(c.Registered) == 0 {
+		// the histories of the other contexts are rendered from inside context 0's writer
+		var pending []History
+		for _, h := range c.Histories {
+			if h.Ctx != 0 {
+				pending = append(pending, h)
+			}
+		}
+		ctxOf := func(id int) (context.Context, *ctxState) {
+			if states[id] == nil {
+				states[id] = &ctxState{model: &model{once: map[int]bool{}}}
+				order = append(order, id)
+				ctxs[id] = templ.InitializeContext(context.Background())
+			}
+			return ctxs[id], states[id]
+		}
+		var nestedErr error
+		hook := func() {
+			if len(pending) == 0 {
+				return
+			}
+			h := pending[0]
+			pending = pending[1:]
+			ctx, st := ctxOf(h.Ctx)
+			if err := renderOne(h, ctx, st); err != nil && nestedErr == nil {
+				nestedErr = err
+			}
+		}
+		for _, h := range c.Histories {
+			if h.Ctx != 0 {
+				continue
+			}
+			ctx, st := ctxOf(0)
+			st.model.walk(h.Uses)
+			if err := renderInto(ctx, h.Uses, &hookWriter{buf: &st.buf, hook: hook}); err != nil {
+				return fmt.Errorf("render: %v", err)
+			}
+		}
+		for len(pending) > 0 {
+			hook()
+		}
+		if nestedErr != nil {
+			return fmt.Errorf("render: %v", nestedErr)
+		}
+		for _, id := range order {
+			st := states[id]
+			if err := judge(st.buf.Bytes(), st.model.evs, registered); err != nil {
+				return fmt.Errorf("context %d (its renders interleaved with other contexts' at write boundaries): %v; output %q", id, err, clip(st.buf.String()))
+			}
+		}
+		return nil
+	}
 	for _, h := range c.Histories {
 		st := states[h.Ctx]
 		if st == nil {
@@ -521,6 +592,33 @@ func nontrivial(c Case) bool {
 		}
 	}
 	return false
+}
+
+// TestPropNested: context 0 renders a long document with many distinct css classes (so that
+// templ's 4 KiB write buffer spills at many different places, also inside a <style> element),
+// and each spill lets another context render.
+func TestPropNested(t *testing.T) {
+	rapid.Check(t, func(t *rapid.T) {
+		c := Case{Nested: true}
+		var long []fx.EUse
+		for i, n := 0, rapid.IntRange(40, 160).Draw(t, "nlong"); i < n; i++ {
+			kind := rapid.SampledFrom([]string{"class-direct", "class-direct", "class-kv", "class-mixed", "on-attr", "script-call", "class-slice"}).Draw(t, "kind")
+			long = append(long, fx.EUse{Kind: kind, A: rapid.IntRange(0, 2).Draw(t, "a"), B: rapid.IntRange(0, 2).Draw(t, "b"), N: 1 + i, On: true,
+				S: rapid.SampledFrom([]string{"x", "y"}).Draw(t, "s")})
+		}
+		c.Histories = append(c.Histories, History{Ctx: 0, Uses: long})
+		for i, n := 0, rapid.IntRange(2, 12).Draw(t, "nother"); i < n; i++ {
+			c.Histories = append(c.Histories, History{Ctx: 1 + rapid.IntRange(0, 2).Draw(t, "octx"), Uses: genUses(1, 6).Draw(t, "ouses")})
+		}
+		rec.Eval(1)
+		rec.Class("renders of other contexts nested in context 0's writes")
+		rec.NonTrivial(fmt.Sprint(c), func() any {
+			return map[string]any{"nested": true, "uses_in_context_0": len(long), "other_histories": len(c.Histories) - 1}
+		})
+		if err := decide(c); err != nil {
+			rec.Fail(t, c, "%v", err)
+		}
+	})
 }
 
 func TestPropHistories(t *testing.T) {
